@@ -87,11 +87,13 @@ def expected_value(cfg, i):
     return ('ok', body)
 
 
+UNCHECKED = object()     # "do not pass returnSignature at all"
+
+
 def return_signature(cfg):
-    from txdbus import client
     deadline, mode, rk, ek, expect = cfg
     if mode == 'unchecked':
-        return client._NO_CHECK_RETURN
+        return UNCHECKED
     if mode == 'match':
         return REPLY_KINDS[rk][0]
     if mode == 'mismatch':
@@ -173,13 +175,16 @@ class CallScenario(explore.Scenario):
             if kind == 'issue':
                 i = ev[1]
                 deadline, mode, rk, ek, expect = w.cfgs[i]
+                kw = {}
+                rs = return_signature(w.cfgs[i])
+                if rs is not UNCHECKED:
+                    kw['returnSignature'] = rs
                 d = conn.callRemote('/obj', 'Method%d' % i,
                                     interface='org.ex.I',
                                     destination='org.ex.Dest',
                                     signature='s', body=['arg-%d' % i],
                                     expectReply=expect, timeout=deadline,
-                                    returnSignature=return_signature(
-                                        w.cfgs[i]))
+                                    **kw)
                 self._watch(w, i, d)
                 msgs = w.cw.sent()
                 if len(msgs) != 1 or msgs[0]['fields'].get('member') != \
